@@ -8,3 +8,4 @@ import QlibcModel.Props.C04
 #print axioms Qlibc.Props.C04.nearest_then_walk
 #print axioms Qlibc.Shapes.Tree.widths_as_modelled
 #print axioms Qlibc.Shapes.Tree.no_hidden_static_state
+#print axioms Qlibc.Shapes.Tree.asserts_side_effect_free
